@@ -560,6 +560,102 @@ theorem C10_call_stream_reads_back (reqId : Nat) (es : List Emit) (a : Answer) (
   intro e he
   exact serverFrames_objects reqId es a e.2 (List.of_mem_zip he).2
 
+/-! ## handler registration histories: the last registration wins -/
+
+/-- what a history says about method `m`, read backwards (newest operation first): the latest operation that names `m`
+    decides — written from the statement, without the table -/
+def lastReg : List RegOp → Text → Option Nat
+  | [], _ => none
+  | .register k h :: older, m => if k = m then some h else lastReg older m
+  | .unregister k :: older, m => if k = m then none else lastReg older m
+
+private theorem handlerFor_erase (t : Table) (k m : Text) :
+    handlerFor (tableErase t k) m = if k = m then none else handlerFor t m := by
+  induction t with
+  | nil => simp [tableErase, handlerFor]
+  | cons kv rest ih =>
+    obtain ⟨k', h⟩ := kv
+    unfold tableErase at ih ⊢
+    by_cases h1 : k' = k
+    · subst h1
+      by_cases h2 : k' = m
+      · simp [h2] at ih ⊢; simpa [h2] using ih
+      · simp [handlerFor, h2] at ih ⊢; simpa [h2] using ih
+    · by_cases h2 : k = m
+      · subst h2
+        simp [h1, handlerFor] at ih ⊢; simpa using ih
+      · simp [h1, handlerFor, h2] at ih ⊢
+        by_cases h3 : k' = m <;> simp [h3, ih]
+
+private theorem handlerFor_applyReg (t : Table) (op : RegOp) (m : Text) :
+    handlerFor (applyReg t op) m = match op with
+      | .register k h => if k = m then some h else handlerFor t m
+      | .unregister k => if k = m then none else handlerFor t m := by
+  cases op with
+  | register k h =>
+    by_cases hk : k = m
+    · simp [applyReg, handlerFor, hk]
+    · simp [applyReg, handlerFor, hk, handlerFor_erase]
+  | unregister k => simp [applyReg, handlerFor_erase]
+
+private theorem handlerFor_rev (rops : List RegOp) (m : Text) :
+    handlerFor (tableAfter rops.reverse) m = lastReg rops m := by
+  induction rops with
+  | nil => rfl
+  | cons op older ih =>
+    simp only [tableAfter, List.reverse_cons, List.foldl_append, List.foldl_cons, List.foldl_nil] at ih ⊢
+    rw [handlerFor_applyReg]
+    cases op <;> (simp only [lastReg]; rw [ih])
+
+/-- **last registration wins**: after ANY history of Register / Unregister on a client — re-registering a method with
+    another handler, unregistering, registering again, in any order and number — the handler the table yields for method
+    `m` is the one of the latest `Register(m, ·)` that no `Unregister(m)` follows, and none if there is no such -/
+theorem C10_last_registration_wins (ops : List RegOp) (m : Text) :
+    handlerFor (tableAfter ops) m = lastReg ops.reverse m := by
+  have := handlerFor_rev ops.reverse m
+  rwa [List.reverse_reverse] at this
+
+private theorem methods_contains (t : Table) (m : Text) : (methods t).contains m = (handlerFor t m).isSome := by
+  induction t with
+  | nil => rfl
+  | cons kv rest ih =>
+    obtain ⟨k, h⟩ := kv
+    by_cases hk : k = m
+    · simp [methods, handlerFor, hk]
+    · have hk' : ¬ m = k := fun e => hk e.symm
+      simp only [methods, List.map_cons, List.contains_cons, handlerFor, hk, if_false] at ih ⊢
+      rw [← ih]
+      simp [hk']
+
+/-- **… and that handler gets the call's notifications**: after any registration history a call's events are, for each
+    emitted notification whose method has a live registration, one invocation of exactly the lastly registered handler
+    instance — in emission order — then the return -/
+theorem C10_history_dispatch (f : Facts) (hsync : f.syncDispatch = true) (ops : List RegOp) (reqId : Nat)
+    (hid : reqId < 1000000) (es : List Emit) (a : Answer) :
+    callH f true (tableAfter ops) reqId es a
+      = ((es.map Emit.notif).filter (fun n => (lastReg ops.reverse n.method).isSome)).map
+          (fun n => (Ev.handled (delivered n), lastReg ops.reverse n.method))
+        ++ [(.ret (answerRaw reqId a), none)] := by
+  unfold callH
+  rw [C10_order_once f hsync _ reqId hid]
+  simp only [List.map_append, List.map_map, List.map_cons, List.map_nil, ranBy]
+  congr 1
+  have hfil : (fun n : Notif => (methods (tableAfter ops)).contains n.method)
+      = (fun n : Notif => (lastReg ops.reverse n.method).isSome) := by
+    funext n; rw [methods_contains, C10_last_registration_wins]
+  rw [hfil]
+  apply List.map_congr_left
+  intro n _
+  simp [delivered, C10_last_registration_wins]
+
+/-- Register(m, 1), a call, Register(m, 2) without unregistering: the second call's notifications go to instance 2 -/
+example : callH ⟨1, true, true⟩ true (tableAfter [.register t!"m" 1, .register t!"x" 5, .register t!"m" 2]) 3
+      [.custom t!"m" []] (.ok .null)
+    = [(.handled ⟨t!"m", ⟨[], []⟩⟩, some 2), (.ret .null, none)] := rfl
+
+example : lastReg [RegOp.register t!"m" 3, .unregister t!"m", .register t!"m" 1] t!"m" = some 3 := rfl
+example : tableAfter [.register t!"m" 1, .unregister t!"m"] = [] := rfl
+
 /-! ## instance obligations over the regenerated facts -/
 
 /-- the sender and the responder of one POST-SSE stream draw event ids from ONE counter -/
